@@ -203,6 +203,22 @@ def build() -> Check:
         ck.ob("R2.pool-bounded-by-max-concurrency", fn_construct(ex), dep and len(pools) == 1,
               f"{len(pools)} pool(s); max_workers={ast.unparse(mw) if mw is not None else None}")
 
+    # R2 "... without waiting for branches that are still running": execute() leaves the pool behind without joining it. `shutdown(wait=True)` - or the pool used
+    # as a context manager, whose exit is shutdown(wait=True) - makes a decided call wait for the slowest branch (mutscan: `wait=False` -> `True` survived everything)
+    joins = []
+    for c in ast.walk(ex.node):
+        if isinstance(c, ast.Call) and isinstance(c.func, ast.Attribute) and c.func.attr == "shutdown" and "executor" in ast.unparse(c.func.value).lower():
+            w_ = next((k.value for k in c.keywords if k.arg == "wait"), c.args[0] if c.args else None)
+            if not (isinstance(w_, ast.Constant) and w_.value is False):
+                joins.append(f"line {c.lineno}: `{ast.unparse(c)}`")
+    for w in ast.walk(ex.node):
+        if isinstance(w, ast.With) and any("ThreadPoolExecutor" in ast.unparse(i.context_expr) for i in w.items):
+            joins.append(f"line {w.lineno}: the pool is a context manager (its exit joins every worker)")
+    n_shut = sum(1 for c in ast.walk(ex.node) if isinstance(c, ast.Call) and isinstance(c.func, ast.Attribute) and c.func.attr == "shutdown" and "executor" in ast.unparse(c.func.value).lower())
+    ck.floor("pool_shutdowns_in_execute", n_shut, 1)
+    ck.ob("R2.decided-call-does-not-join-the-pool", fn_construct(ex), not joins,
+          "; ".join(joins) + ": a map/parallel whose policy is decided (min_successful reached, tolerance exceeded) returns only when its slowest branch has finished")
+
     # R3 decision vs classifier ---------------------------------------------------------------------
     counters = models.classes["ExecutionCounters"]
     sc, ic = counters.methods["should_continue"], counters.methods["is_complete"]
